@@ -38,10 +38,10 @@ Lemma src_quorum_atoms :
 Proof. reflexivity. Qed.
 
 Lemma src_crossed orig q sum' :
-  types__VoteSet_addVerifiedVote__if3 orig q sum' = (Z.ltb orig q && Z.leb q sum')%bool.
+  types__VoteSet_addVerifiedVote__if_origSum_lt_quorum_and_quorum_le_votesByBlock_sum orig q sum' = (Z.ltb orig q && Z.leb q sum')%bool.
 Proof. reflexivity. Qed.
 Lemma src_crossed_atoms :
-  types__VoteSet_addVerifiedVote__if3_atoms = ["origSum : int64"; "quorum : int64"; "votesByBlock.sum : int64"]%string.
+  types__VoteSet_addVerifiedVote__if_origSum_lt_quorum_and_quorum_le_votesByBlock_sum_atoms = ["origSum : int64"; "quorum : int64"; "votesByBlock.sum : int64"]%string.
 Proof. reflexivity. Qed.
 
 (** running sums are int64 additions of the validator's power *)
@@ -52,29 +52,29 @@ Lemma src_sum_add_atoms :
 Proof. reflexivity. Qed.
 
 Lemma src_two_thirds_any vs :
-  has_two_thirds_any vs = types__VoteSet_HasTwoThirdsAny__ret1 (vs_sum vs) (total_power (vs_vals vs)).
-Proof. unfold has_two_thirds_any, types__VoteSet_HasTwoThirdsAny__ret1. rewrite Z.gtb_ltb. reflexivity. Qed.
+  has_two_thirds_any vs = types__VoteSet_HasTwoThirdsAny__ret_voteSet_sum_gt_voteSet_valSet_TotalVotingPower_mul_2_div_3 (vs_sum vs) (total_power (vs_vals vs)).
+Proof. unfold has_two_thirds_any, types__VoteSet_HasTwoThirdsAny__ret_voteSet_sum_gt_voteSet_valSet_TotalVotingPower_mul_2_div_3. rewrite Z.gtb_ltb. reflexivity. Qed.
 Lemma src_two_thirds_any_atoms :
-  types__VoteSet_HasTwoThirdsAny__ret1_atoms = ["voteSet.sum : int64"; "voteSet.valSet.TotalVotingPower() : int64"]%string.
+  types__VoteSet_HasTwoThirdsAny__ret_voteSet_sum_gt_voteSet_valSet_TotalVotingPower_mul_2_div_3_atoms = ["voteSet.sum : int64"; "voteSet.valSet.TotalVotingPower() : int64"]%string.
 Proof. reflexivity. Qed.
 
 Lemma src_has_all vs :
-  has_all vs = types__VoteSet_HasAll__ret1 (vs_sum vs) (total_power (vs_vals vs)).
+  has_all vs = types__VoteSet_HasAll__ret_voteSet_sum_eq_voteSet_valSet_TotalVotingPower (vs_sum vs) (total_power (vs_vals vs)).
 Proof. reflexivity. Qed.
 
 (** conflicting vote without a peer claim is dropped: [conflicting != nil && !peerMaj23] *)
-Lemma src_conflict_guard c pm : types__VoteSet_addVerifiedVote__if2 c pm = (c && negb pm)%bool.
+Lemma src_conflict_guard c pm : types__VoteSet_addVerifiedVote__if_conflicting_ne_nil_and_not_votesByBlock_peerMaj23 c pm = (c && negb pm)%bool.
 Proof. reflexivity. Qed.
 Lemma src_conflict_guard_atoms :
-  types__VoteSet_addVerifiedVote__if2_atoms = ["conflicting != nil : bool"; "votesByBlock.peerMaj23 : bool"]%string.
+  types__VoteSet_addVerifiedVote__if_conflicting_ne_nil_and_not_votesByBlock_peerMaj23_atoms = ["conflicting != nil : bool"; "votesByBlock.peerMaj23 : bool"]%string.
 Proof. reflexivity. Qed.
 
 (** addVote step check: height, round and type must all match *)
 Lemma src_step_guard h h' r r' t t' :
-  types__VoteSet_addVote__if2 (Z.of_N h) (Z.of_N h') (Z.of_N r) (Z.of_N r') (Z.of_N t) (Z.of_N t')
+  types__VoteSet_addVote__if_vote_Height_ne_voteSet_height_or_vote_Round_ne_voteSet_round_5947c832 (Z.of_N h) (Z.of_N h') (Z.of_N r) (Z.of_N r') (Z.of_N t) (Z.of_N t')
   = negb (N.eqb h h' && N.eqb r r' && N.eqb t t').
 Proof.
-  unfold types__VoteSet_addVote__if2, go_neqb.
+  unfold types__VoteSet_addVote__if_vote_Height_ne_voteSet_height_or_vote_Round_ne_voteSet_round_5947c832, go_neqb.
   rewrite !negb_andb.
   replace (Z.of_N h =? Z.of_N h') with (N.eqb h h') by (destruct (N.eqb_spec h h'); destruct (Z.eqb_spec (Z.of_N h) (Z.of_N h')); try reflexivity; lia).
   replace (Z.of_N r =? Z.of_N r') with (N.eqb r r') by (destruct (N.eqb_spec r r'); destruct (Z.eqb_spec (Z.of_N r) (Z.of_N r')); try reflexivity; lia).
@@ -94,42 +94,49 @@ Lemma src_tally_add_atoms :
   types__ValidatorSet_VerifyCommit__set_talliedVotingPower_op_atoms = ["talliedVotingPower : int64"; "val.VotingPower : int64"]%string.
 Proof. reflexivity. Qed.
 (** "not enough power" is [got <= needed]: strictly more than two thirds is required *)
-Lemma src_enough got needed : types__ValidatorSet_VerifyCommit__if5 got needed = Z.leb got needed.
+Lemma src_enough got needed : types__ValidatorSet_VerifyCommit__if_got_le_needed got needed = Z.leb got needed.
 Proof. reflexivity. Qed.
-Lemma src_enough_atoms : types__ValidatorSet_VerifyCommit__if5_atoms = ["got : int64"; "needed : int64"]%string.
+Lemma src_enough_atoms : types__ValidatorSet_VerifyCommit__if_got_le_needed_atoms = ["got : int64"; "needed : int64"]%string.
 Proof. reflexivity. Qed.
-Lemma src_size_guard n m : types__ValidatorSet_VerifyCommit__if1 (Z.of_nat n) (Z.of_nat m) = negb (Nat.eqb n m).
+Lemma src_size_guard n m : types__ValidatorSet_VerifyCommit__if_vs_Size_ne_len_commit_Signatures (Z.of_nat n) (Z.of_nat m) = negb (Nat.eqb n m).
 Proof.
-  unfold types__ValidatorSet_VerifyCommit__if1, go_neqb. f_equal.
+  unfold types__ValidatorSet_VerifyCommit__if_vs_Size_ne_len_commit_Signatures, go_neqb. f_equal.
   destruct (Nat.eqb_spec n m); destruct (Z.eqb_spec (Z.of_nat n) (Z.of_nat m)); try reflexivity; lia.
 Qed.
 Lemma src_size_guard_atoms :
-  types__ValidatorSet_VerifyCommit__if1_atoms = ["vs.Size() : int"; "len(commit.Signatures) : int"]%string.
+  types__ValidatorSet_VerifyCommit__if_vs_Size_ne_len_commit_Signatures_atoms = ["vs.Size() : int"; "len(commit.Signatures) : int"]%string.
 Proof. reflexivity. Qed.
 Lemma src_height_guard_atoms :
-  types__ValidatorSet_VerifyCommit__if2_atoms = ["height : uint64"; "commit.GetHeight() : uint64"]%string.
+  types__ValidatorSet_VerifyCommit__if_height_ne_commit_GetHeight_atoms = ["height : uint64"; "commit.GetHeight() : uint64"]%string.
 Proof. reflexivity. Qed.
 Lemma src_blockid_guard_atoms :
-  types__ValidatorSet_VerifyCommit__if3_atoms = ["blockID.Equal(commit.BlockID) : bool"]%string
-  /\ forall b, types__ValidatorSet_VerifyCommit__if3 b = negb b.
+  types__ValidatorSet_VerifyCommit__if_not_blockID_Equal_commit_BlockID_atoms = ["blockID.Equal(commit.BlockID) : bool"]%string
+  /\ forall b, types__ValidatorSet_VerifyCommit__if_not_blockID_Equal_commit_BlockID b = negb b.
+Proof. split; reflexivity. Qed.
+
+(** a non-absent slot must name the validator of its position (checked before the signature) *)
+Lemma src_addr_guard :
+  types__ValidatorSet_VerifyCommit__if_not_commitSig_ValidatorAddress_Equal_val_Address_atoms
+  = ["commitSig.ValidatorAddress.Equal(val.Address) : bool"]%string
+  /\ forall b, types__ValidatorSet_VerifyCommit__if_not_commitSig_ValidatorAddress_Equal_val_Address b = negb b.
 Proof. split; reflexivity. Qed.
 
 (** the cap panic of updateTotalVotingPower is [sum > MaxTotalVotingPower] *)
-Lemma src_cap_guard s : types__ValidatorSet_updateTotalVotingPower__if1 s = Z.ltb max_total_voting_power s.
-Proof. unfold types__ValidatorSet_updateTotalVotingPower__if1. rewrite Z.gtb_ltb. reflexivity. Qed.
+Lemma src_cap_guard s : types__ValidatorSet_updateTotalVotingPower__if_sum_gt_MaxTotalVotingPower s = Z.ltb max_total_voting_power s.
+Proof. unfold types__ValidatorSet_updateTotalVotingPower__if_sum_gt_MaxTotalVotingPower. rewrite Z.gtb_ltb. reflexivity. Qed.
 
 (** ** block ids *)
 Lemma src_bid_is_zero b :
-  bid_is_zero b = types__BlockID_IsZero__ret1 (N.eqb (b_hash b) 0) (N.eqb (b_total b) 0 && N.eqb (b_phash b) 0)%bool.
+  bid_is_zero b = types__BlockID_IsZero__ret_blockID_Hash_IsZero_and_blockID_PartsHeader_IsZero (N.eqb (b_hash b) 0) (N.eqb (b_total b) 0 && N.eqb (b_phash b) 0)%bool.
 Proof. reflexivity. Qed.
 Lemma src_bid_is_complete b :
-  bid_is_complete b = types__BlockID_IsComplete__ret1 (N.eqb (b_hash b) 0) (N.eqb (b_total b) 0 && N.eqb (b_phash b) 0)%bool.
+  bid_is_complete b = types__BlockID_IsComplete__ret_not_blockID_Hash_IsZero_and_not_blockID_PartsHeader_IsZero (N.eqb (b_hash b) 0) (N.eqb (b_total b) 0 && N.eqb (b_phash b) 0)%bool.
 Proof. reflexivity. Qed.
 Lemma src_bid_atoms :
-  types__BlockID_IsZero__ret1_atoms = ["blockID.Hash.IsZero() : bool"; "blockID.PartsHeader.IsZero() : bool"]%string
-  /\ types__BlockID_IsComplete__ret1_atoms = ["blockID.Hash.IsZero() : bool"; "blockID.PartsHeader.IsZero() : bool"]%string
-  /\ types__BlockID_Equal__ret1_atoms = ["blockID.Hash.Equal(other.Hash) : bool"; "blockID.PartsHeader.Equals(other.PartsHeader) : bool"]%string
-  /\ forall x y, types__BlockID_Equal__ret1 x y = (x && y)%bool.
+  types__BlockID_IsZero__ret_blockID_Hash_IsZero_and_blockID_PartsHeader_IsZero_atoms = ["blockID.Hash.IsZero() : bool"; "blockID.PartsHeader.IsZero() : bool"]%string
+  /\ types__BlockID_IsComplete__ret_not_blockID_Hash_IsZero_and_not_blockID_PartsHeader_IsZero_atoms = ["blockID.Hash.IsZero() : bool"; "blockID.PartsHeader.IsZero() : bool"]%string
+  /\ types__BlockID_Equal__ret_blockID_Hash_Equal_other_Hash_and_blockID_PartsHeader_Equals_d815eb38_atoms = ["blockID.Hash.Equal(other.Hash) : bool"; "blockID.PartsHeader.Equals(other.PartsHeader) : bool"]%string
+  /\ forall x y, types__BlockID_Equal__ret_blockID_Hash_Equal_other_Hash_and_blockID_PartsHeader_Equals_d815eb38 x y = (x && y)%bool.
 Proof. repeat split; reflexivity. Qed.
 
 (** ** the whole tie, as one statement (quoted by Properties.v) *)
@@ -138,20 +145,20 @@ Definition C02_source_tie_statement : Prop :=
   /\ (forall a b, in_range I64 a -> in_range I64 b -> types__safeSubClip a b = safe_sub_clip a b)
   /\ types__MaxTotalVotingPower = max_total_voting_power
   /\ (forall vals, quorum vals = types__VoteSet_addVerifiedVote__set_quorum (total_power vals))
-  /\ (forall orig q s, types__VoteSet_addVerifiedVote__if3 orig q s = (Z.ltb orig q && Z.leb q s)%bool)
+  /\ (forall orig q s, types__VoteSet_addVerifiedVote__if_origSum_lt_quorum_and_quorum_le_votesByBlock_sum orig q s = (Z.ltb orig q && Z.leb q s)%bool)
   /\ (forall s p, types__VoteSet_addVerifiedVote__set_sum_op s p = wrap64 (s + p))
-  /\ (forall vs, has_two_thirds_any vs = types__VoteSet_HasTwoThirdsAny__ret1 (vs_sum vs) (total_power (vs_vals vs)))
-  /\ (forall vs, has_all vs = types__VoteSet_HasAll__ret1 (vs_sum vs) (total_power (vs_vals vs)))
-  /\ (forall c pm, types__VoteSet_addVerifiedVote__if2 c pm = (c && negb pm)%bool)
+  /\ (forall vs, has_two_thirds_any vs = types__VoteSet_HasTwoThirdsAny__ret_voteSet_sum_gt_voteSet_valSet_TotalVotingPower_mul_2_div_3 (vs_sum vs) (total_power (vs_vals vs)))
+  /\ (forall vs, has_all vs = types__VoteSet_HasAll__ret_voteSet_sum_eq_voteSet_valSet_TotalVotingPower (vs_sum vs) (total_power (vs_vals vs)))
+  /\ (forall c pm, types__VoteSet_addVerifiedVote__if_conflicting_ne_nil_and_not_votesByBlock_peerMaj23 c pm = (c && negb pm)%bool)
   /\ (forall vals, two_thirds vals = types__ValidatorSet_VerifyCommit__set_votingPowerNeeded (total_power vals))
   /\ (forall acc p, types__ValidatorSet_VerifyCommit__set_talliedVotingPower_op acc p = wrap64 (acc + p))
-  /\ (forall got needed, types__ValidatorSet_VerifyCommit__if5 got needed = Z.leb got needed)
-  /\ (forall s, types__ValidatorSet_updateTotalVotingPower__if1 s = Z.ltb max_total_voting_power s)
+  /\ (forall got needed, types__ValidatorSet_VerifyCommit__if_got_le_needed got needed = Z.leb got needed)
+  /\ (forall s, types__ValidatorSet_updateTotalVotingPower__if_sum_gt_MaxTotalVotingPower s = Z.ltb max_total_voting_power s)
   /\ (types__VoteSet_addVerifiedVote__set_quorum_atoms = ["voteSet.valSet.TotalVotingPower() : int64"]%string
-      /\ types__VoteSet_addVerifiedVote__if3_atoms = ["origSum : int64"; "quorum : int64"; "votesByBlock.sum : int64"]%string
-      /\ types__VoteSet_HasTwoThirdsAny__ret1_atoms = ["voteSet.sum : int64"; "voteSet.valSet.TotalVotingPower() : int64"]%string
+      /\ types__VoteSet_addVerifiedVote__if_origSum_lt_quorum_and_quorum_le_votesByBlock_sum_atoms = ["origSum : int64"; "quorum : int64"; "votesByBlock.sum : int64"]%string
+      /\ types__VoteSet_HasTwoThirdsAny__ret_voteSet_sum_gt_voteSet_valSet_TotalVotingPower_mul_2_div_3_atoms = ["voteSet.sum : int64"; "voteSet.valSet.TotalVotingPower() : int64"]%string
       /\ types__ValidatorSet_VerifyCommit__set_votingPowerNeeded_atoms = ["vs.TotalVotingPower() : int64"]%string
-      /\ types__ValidatorSet_VerifyCommit__if5_atoms = ["got : int64"; "needed : int64"]%string).
+      /\ types__ValidatorSet_VerifyCommit__if_got_le_needed_atoms = ["got : int64"; "needed : int64"]%string).
 
 Lemma C02_source_tie_proof : C02_source_tie_statement.
 Proof.
